@@ -10,6 +10,7 @@ import (
 	"encoding/binary"
 	"fmt"
 	"os"
+	"strings"
 	"testing"
 
 	"github.com/elastos/Elastos.ELA/blockchain"
@@ -34,6 +35,28 @@ func TestMain(m *testing.M) {
 		log.NewDefault(dir, 6, 0, 0)
 	}
 	vk.Main(m, "C03")
+}
+
+// panicSig is the signature of a crash: innermost repository frame plus the
+// kind of runtime error (two different faults inside one function differ).
+func panicSig(frame string, pv any) string {
+	msg := fmt.Sprint(pv)
+	kind := "other"
+	switch {
+	case strings.Contains(msg, "index out of range"):
+		kind = "index"
+	case strings.Contains(msg, "slice bounds out of range"):
+		kind = "slice"
+	case strings.Contains(msg, "nil pointer"):
+		kind = "nil"
+	case strings.Contains(msg, "divide by zero"):
+		kind = "divide"
+	case strings.Contains(msg, "interface conversion"):
+		kind = "type-assertion"
+	case strings.Contains(msg, "makeslice") || strings.Contains(msg, "out of memory"):
+		kind = "alloc"
+	}
+	return "C03:panic:" + frame + ":" + kind
 }
 
 // minProgramCodeSize is what every transaction's sanity check demands of a
@@ -178,7 +201,7 @@ func exerciseScript(t vk.TB, code, param, data []byte) (panicked bool) {
 
 	report := func(entry string, pv any, frame string) {
 		panicked = true
-		vk.Report(t, "C03:panic:"+frame, fmt.Sprintf("%s panicked: %v", entry, pv),
+		vk.Report(t, panicSig(frame, pv), fmt.Sprintf("%s panicked: %v", entry, pv),
 			map[string]any{"entry": entry, "code": fmt.Sprintf("%x", code), "parameter": fmt.Sprintf("%x", param),
 				"data": fmt.Sprintf("%x", data), "panic": fmt.Sprint(pv)})
 	}
